@@ -38,8 +38,17 @@ ASSUMPTIONS = [
     "tolerance: every output number (point coordinate, component offset, advance, side bearing, MVAR metric) "
     "within one font unit of the exact rational value of the variation model, any rounding rule (Dev_Rounding); "
     "equality with the source at normalised coordinates 0",
-    "the normalised tuple returned by variations::instance is taken as the location (normalisation is C13's); "
-    "for generated fonts it must equal the tuple the model evaluated",
+    "generated fonts are judged at the normalised tuple the specification computes from the user tuple, the fvar axes "
+    "and the avar segment maps (MC_Variation!Norm2, bound to Normalize.tla with zero error); the tuple instance() "
+    "returns must agree with it (exactly for the fonts without avar on axes -1..0..1, within max(1, slope) units - "
+    "C13's tolerance - for the others). Repository fonts are judged at the tuple instance() returns "
+    "(normalisation there is C13's)",
+    "the header box of a written glyph is judged against the box of the written outline (components flattened by the "
+    "harness, any depth), one unit per side (Dev_BoxRounding); a simple glyph without variation data may keep the "
+    "source header; not judged with transformed / point-matched components. head.xMin..yMax = union of the header "
+    "boxes of the non-empty glyphs, with or without the origin (Dev_HeadBoxOrigin). With head.flags bit 1, no lsb "
+    "map, a source glyph with lsb = xMin and an exact pp1 of 0, the written lsb equals the written xMin",
+    "a metric of the 12 judged MVAR fields that has no value record keeps the source value",
     "without an HVAR lsb map the side bearing is xMin - pp1.x with xMin either the exact minimum of the varied "
     "points or the xMin of the written outline (Dev_LsbFromOutline); a CFF2 font without lsb map keeps its "
     "bearings (Dev_CffLsbUnvaried); a negative exact advance may be written as 0 (Dev_NegativeAdvance); a metric "
@@ -181,7 +190,7 @@ VAC_REQUIRED = [
     "avar_fonts", "avar_skew_tuples", "avar_all_default_patterns", "avar_axes3", "avar_maps_knots0", "avar_maps_knots3",
     "avar_maps_knots9", "avar_with_hvar", "avar_user_tuples", "avar_fvar_axis_size_gt20",
     "nest_forward_refs", "nest_backward_refs", "nest_depth3", "nest_forward_no_hvar", "nest_forward_hvar_no_lsbmap",
-    "nest_forward_hvar_lsbmap", "nest_unvaried_composite",
+    "nest_forward_hvar_lsbmap", "nest_unvaried_composite", "nest_short_hmtx",
     "lay_mvar_rec8", "lay_mvar_rec10", "lay_mvar_rec12", "lay_mvar_big_several_records", "lay_mvar_absent_tags",
     "lay_mvar_first_tag_absent", "lay_mvar_two_subs", "lay_hvar_long_words", "lay_hvar_ri_not_prefix",
     "lay_hvar_several_subs", "lay_map_entry1", "lay_map_entry2", "lay_map_entry3", "lay_map_entry4", "lay_map_format1",
